@@ -58,3 +58,14 @@ Theorem C18_idle_time_accumulates : forall cfg k ms,
   snd (k_can_block cfg k ms) = false.
 Proof. exact idle_time_accumulates. Qed.
 Print Assumptions C18_idle_time_accumulates.
+
+(* virtual-key events and the chords-v2 queue: a tick that is processed remembers the length the queue has once the virtual-key
+   events have left it, so the next virtual-key event always makes the queue look different (defect repaired by 88090f5) *)
+From KV Require Import Keyberon.ChordsV2 Proofs.C09V2Countdown.
+Theorem C18_remembered_queue_length_excludes_virtual_keys : forall c dq layer c' dq',
+  drain_inputs c dq layer = Ok (c', dq') ->
+  (0 <? cv_ignore c) = false ->
+  ((0 <? cv_until_change c) && (cv_prev_layer c =? layer) && (cv_prev_qlen c =? N.of_nat (length (cv_queue c)))) = false ->
+  exists q1 dq1, drain_virtual (cv_queue c) dq = Ok (q1, dq1) /\ cv_prev_qlen c' = N.of_nat (length q1).
+Proof. exact remembered_length_excludes_virtual_keys. Qed.
+Print Assumptions C18_remembered_queue_length_excludes_virtual_keys.
